@@ -8,8 +8,8 @@ from vlib import coqrun, harness, util
 from vlib.coqterm import C, Raw, show
 
 ASSUMPTIONS = [
-    "the Coq model covers 23 request formats (identifier-based commands, polling, consumer offsets, partitions, groups, create/update stream); the remaining commands and all responses are exercised end to end in server mode (real SDK client against the real server), not modelled",
-    "names are ASCII in the model; HTTP/JSON and QUIC are not exercised",
+    "the Coq model covers 23 request formats (identifier-based commands, polling, consumer offsets, partitions, groups, create/update stream), the SendMessages request with headers of every kind, and two responses (polled messages, consumer group details); the remaining commands and responses are exercised end to end in server mode (real SDK client against the real server, binary protocol and HTTP/JSON answers compared), not modelled",
+    "names are ASCII in the model and the UTF-8 check of header keys is not modelled (refusals compared only for keys without bytes >= 128); QUIC is not exercised",
 ]
 KINDS1 = ["get_stream", "delete_stream", "purge_stream", "get_topics", "get_user", "delete_user"]
 KINDS2 = ["get_topic", "delete_topic", "purge_topic", "get_groups"]
